@@ -100,9 +100,11 @@ func checkC06(c AxisCase) (bool, *Violation) {
 				restExact = big.NewRat(127, 1)
 			}
 			E := ratMulInt(x, 127)
+			_ = restExact
 			if !rx.CCSeen[ctl] {
-				if d := new(big.Rat).Sub(E, restExact); sh.PreFlip.Sign() != 0 && d.Abs(d).Cmp(big.NewRat(1, 1)) > 0 {
-					return true, violation("C06", "never-transmitted", "cc", "%s: nothing has been transmitted for CC %d although the exact value %.3f differs from the rest value", where(), *a.CC, ratF(E))
+				// nothing was ever transmitted for this controller: the receiver still has its power-on value 0
+				if E.Cmp(big.NewRat(1, 1)) > 0 {
+					return true, violation("C06", "never-transmitted", "cc", "%s: nothing has been transmitted for CC %d although the exact value is %.3f", where(), *a.CC, ratF(E))
 				}
 				break
 			}
@@ -153,21 +155,8 @@ func checkC06(c AxisCase) (bool, *Violation) {
 				ctl, name = neg, *a.CCNeg
 			}
 			if !rx.CCSeen[ctl] {
-				// what the receiver is assumed to hold before anything is sent: the value at physical rest
-				// (0 on a signed / centred axis; full scale on one side for a plain unsigned axis)
-				restSide, restE := 0, big.NewRat(0, 1)
-				if !sh.CanNeg {
-					restSide, restE = -1, big.NewRat(127, 1)
-					if flip {
-						restSide = 1
-					}
-				}
-				differs := E.Cmp(big.NewRat(1, 1)) > 0
-				if side == restSide {
-					d := new(big.Rat).Sub(E, restE)
-					differs = d.Abs(d).Cmp(big.NewRat(1, 1)) > 0
-				}
-				if sh.PreFlip.Sign() != 0 && differs {
+				// nothing was ever transmitted for the controller of this side: the receiver still has its power-on value 0
+				if E.Cmp(big.NewRat(1, 1)) > 0 {
 					return true, violation("C06", "never-transmitted", "cc-bidi", "%s: nothing transmitted for CC %d although the exact value is %.3f", where(), name, ratF(E))
 				}
 				break
@@ -203,9 +192,11 @@ func checkC06(c AxisCase) (bool, *Violation) {
 				anch = new(big.Rat).Add(big.NewRat(8192, 1), ratMulInt(vv, 8192))
 			}
 			got, seen := rx.Bend[ch]
+			_ = restExact
 			if !seen {
-				if d := new(big.Rat).Sub(anch, restExact); sh.PreFlip.Sign() != 0 && d.Abs(d).Cmp(big.NewRat(1, 1)) > 0 {
-					return true, violation("C06", "never-transmitted", "bend", "%s: no pitch bend transmitted although the exact value %.2f differs from the rest value", where(), ratF(anch))
+				// nothing was ever transmitted: the receiver still has its power-on value, the centre
+				if d := new(big.Rat).Sub(anch, big.NewRat(8192, 1)); d.Abs(d).Cmp(big.NewRat(1, 1)) > 0 {
+					return true, violation("C06", "never-transmitted", "bend", "%s: no pitch bend transmitted although the exact value is %.2f", where(), ratF(anch))
 				}
 				break
 			}
@@ -336,18 +327,22 @@ func checkC07(c AxisCase) (bool, *Violation) {
 				return true, violation("C07", "both-sides-nonzero", "", "%s: after this event the receiver has both controllers of axis %s non-zero (%d and %d)", where(), code, rx.CC[q.pos], rx.CC[q.neg])
 			}
 		}
-		// An event that transmits nothing leaves the receiver as it was. That is legitimate when CC-learning
-		// suppressed it (the receiver is then stale until the next transmission) or when it repeats the previous
-		// shaped position; in every other case the receiver must be on the side of the stick after the event.
+		// An event that transmits nothing leaves the receiver as it was. That is legitimate while CC-learning suppresses it
+		// (the receiver is stale until the next event that is not suppressed) or when it repeats the position of the last
+		// event that was not suppressed; in every other case - also for the first event after learning was released - the
+		// receiver must be on the side of the stick after the event ("and this still holds afterwards").
 		prevPre, seenPre := lastPre[ak]
-		repeatsPrev := (seenPre && prevPre.Cmp(sh.PreFlip) == 0) || (!seenPre && sh.PreFlip.Sign() == 0)
-		lastPre[ak] = sh.PreFlip
+		repeatsPrev := seenPre && prevPre.Cmp(sh.PreFlip) == 0
+		if !(learning && !half) {
+			lastPre[ak] = sh.PreFlip
+		}
 		if len(ws.Res.Out) > 0 {
 			stale[ak] = false
 		} else if learning && !half {
 			stale[ak] = true
 		}
-		silentButMoved := len(ws.Res.Out) == 0 && !repeatsPrev && !stale[ak] && !(learning && !half) && side != 2
+		classifyIf(!learning && stale[ak] && !repeatsPrev, "first differing position after a suppressed one, learning released")
+		silentButMoved := len(ws.Res.Out) == 0 && !repeatsPrev && !(learning && !half) && side != 2
 		if silentButMoved {
 			switch {
 			case side > 0 && rx.CC[p.neg] != 0:
@@ -427,14 +422,11 @@ func checkC08(c AxisCase) (bool, *Violation) {
 			d = &[2]c08dir{}
 			dirs[ak] = d
 		}
-		// the device assumes every axis starts at its physical rest and ignores an event that repeats the
-		// previous shaped position; nothing is asserted about such an event (it emitted nothing)
+		// an event that repeats the previous shaped position of the axis changes nothing; nothing is asserted about it when it
+		// emitted nothing. (The first event of an axis repeats nothing: it is asserted like any other.)
 		prev, seen := lastPre[ak]
-		if !seen {
-			prev = new(big.Rat)
-		}
 		lastPre[ak] = sh.PreFlip
-		if prev.Cmp(sh.PreFlip) == 0 && len(ws.Res.Out) == 0 {
+		if seen && prev.Cmp(sh.PreFlip) == 0 && len(ws.Res.Out) == 0 {
 			classify("repeated position (no output, nothing asserted)")
 			continue
 		}
@@ -458,6 +450,17 @@ func checkC08(c AxisCase) (bool, *Violation) {
 				return true, violation("C08", "unexpected-message", "", "%s: emitted %x (only Note On/Off expected from a key-emulating axis)", where(), msg)
 			}
 			rx.Feed(msg)
+			// "never sounds both directions together" holds between the messages of one step too: when the stick jumps from
+			// one direction to the other, the old note goes off before the new one comes on
+			if isNoteOn(msg) {
+				for k := 0; k < 2; k++ {
+					if d[k].sent != nil && rx.Sounding[chPitch{byte(d[k].sent.Ch), byte(d[k].sent.Pitch)}] &&
+						!(int(msg[0]&0x0f) == d[k].sent.Ch && int(msg[1]) == d[k].sent.Pitch) {
+						return true, violation("C08", "both-directions-sounding", "within-step", "%s: Note On %x arrives while the other direction's note (ch %d pitch %d) is still sounding; all output of the step: %s",
+							where(), msg, d[k].sent.Ch+1, d[k].sent.Pitch, fmtMsgs(ws.Res.Out))
+					}
+				}
+			}
 		}
 		notes := [2]*int{a.Note, a.NoteNeg}
 		expectedPitch := func(k int) (heldNote, bool) {
@@ -487,6 +490,14 @@ func checkC08(c AxisCase) (bool, *Violation) {
 				want = [2]bool{false, true}
 			case 0:
 				want = [2]bool{false, false}
+			case 2:
+				// between 49 % and 50 % of travel: the direction the stick is in keeps its state (hysteresis), the opposite
+				// direction is far below 49 % of ITS travel and must be off
+				if kv.Sign() > 0 {
+					want[1] = false
+				} else {
+					want[0] = false
+				}
 			}
 			onUsed := make([]bool, len(ons))
 			offUsed := make([]bool, len(offs))
